@@ -149,6 +149,42 @@ def gen_multi_literal_set(rng):
     return globs, paths
 
 
+NA_WORDS = ["caf\u00e9", "\u00fcber", "\u4e2d", "\u00e9", "na\u00efve", "\u4e2d\u6587", "a\u00e9b", "\u00fc"]
+
+
+def gen_nonascii_set(rng):
+    """globs and paths with multi-byte UTF-8 literals in the literal / basename / extension / prefix / suffix shapes.
+    The model reads glob text byte-wise, which is exact here: only literals, `*`, `**` and `?` (one byte under
+    (?-u)) occur, no class ranges over non-ASCII characters and no case folding."""
+    w = [x.encode("utf-8") for x in rng.sample(NA_WORDS, 3)]
+    fam = rng.randint(0, 5)
+    globs, paths = [], []
+    for i, n in enumerate(rng.sample([1, 2, 3], rng.randint(1, 3))):
+        a, b = w[i % 3], w[(i + 1) % 3]
+        lit = [a, a + b, b + b"/" + a][n - 1]
+        if fam == 0:
+            globs.append((rng.choice([4, 6]), b"**/" + b"dir/" * (n - 1) + a + b".txt"))      # suffix with component
+            paths += [b"dir/" * (n - 1) + a + b".txt", b"x/" + b"dir/" * (n - 1) + a + b".txt", b"x/y/" + a + b".txt"]
+        elif fam == 1:
+            globs.append((rng.choice([4, 6]), lit + b"/**"))                                   # prefix with separator
+            paths += [lit + b"/a", lit + b"/a/" + b, lit, b"a/" + lit + b"/a"]
+        elif fam == 2:
+            globs.append((4, lit + b"*"))                                                      # prefix
+            paths += [lit, lit + b"x", lit + b"/" + b + b"/c", b"x" + lit]
+        elif fam == 3:
+            globs.append((4, b"*" + lit))                                                      # suffix
+            paths += [lit, b"x" + lit, b"a/b/" + lit, lit + b"x"]
+        elif fam == 4:
+            globs.append((rng.choice([4, 6]), rng.choice([b"*.", b"**/*."]) + a))             # extension
+            paths += [b"x." + a, b"d/" + b + b"." + a, b"." + a, b"x." + a + b"/y"]
+        else:
+            globs.append((rng.choice([4, 6]), rng.choice([b"**/" + a, lit, b"**/" + a + b"?", a + b"/*"])))
+            paths += [a, b"d/" + a, lit, b"d/e/" + a, a + b"/" + b, a + b"x"]
+    if rng.random() < 0.4:
+        globs.insert(rng.randint(0, len(globs)), (rng.choice([4, 6]), rng.choice([b"*.txt", b"**/dir/a.txt", b"ab/**", b"*b", b"a*"])))
+    return globs, paths
+
+
 def gen_opts(rng):
     n = rng.randint(0, 15)
     if rng.random() < 0.5:
@@ -177,6 +213,12 @@ MULTI_CORPUS = [   # sets whose prefix / suffix tables hold literals of differen
     [(4, b"**/a/b/ab"), (4, b"**/b/ab")], [(4, b"**/b/ab"), (4, b"**/a/b/ab")], [(6, b"**/a.b/a/b"), (6, b"**/a/b"), (6, b"**/b")],
     [(4, b"*abA"), (4, b"*bA")], [(4, b"*bA"), (4, b"*abA")], [(4, b"ab.-*"), (4, b"ab*")], [(4, b"ab*"), (4, b"ab.-*")],
     [(4, b"ab/a/**"), (4, b"ab/**")], [(6, b"a/b/**"), (6, b"a/**"), (6, b"a/b/a/**")],
+]
+
+NA_CORPUS = [   # non-ASCII literals in the strategy shapes; alone (theirs is the longest literal) and with ASCII company
+    [(4, "**/dir/caf\u00e9.txt".encode())], [(4, "\u00fcber/**".encode())], [(6, "**/dir/caf\u00e9.txt".encode()), (6, b"**/a/b")],
+    [(4, b"ab/**"), (4, "\u00fcber/**".encode())], [(4, "*.\u4e2d".encode()), (4, "**/\u00e9".encode())],
+    [(4, "*\u00fc".encode()), (4, b"*b")], [(4, "caf\u00e9*".encode())], [(4, "\u4e2d\u6587/\u00e9".encode())],
 ]
 
 CORPUS = [  # (opts, glob): hand-written corner cases, run first
@@ -246,12 +288,22 @@ def viol(ctx, what, rep, nfi=False):
     _seen[what] = _seen.get(what, 0) + 1
     if _seen[what] > 3:
         return
+    def u8(x):
+        """replay files keep bytes as latin-1 text; show valid UTF-8 as such in the message"""
+        if isinstance(x, str):
+            try:
+                return x.encode("latin1").decode("utf-8")
+            except (UnicodeDecodeError, UnicodeEncodeError):
+                return x
+        if isinstance(x, (list, tuple)):
+            return type(x)(u8(y) for y in x)
+        return x
     wit = ""
     if "glob" in rep:
-        wit = " [opts=%s glob=%r%s]" % (rep.get("opts"), rep.get("glob"),
-                                        (" path=%r" % rep["path"]) if "path" in rep else "")
+        wit = " [opts=%s glob=%r%s]" % (rep.get("opts"), u8(rep.get("glob")),
+                                        (" path=%r" % u8(rep["path"])) if "path" in rep else "")
     elif "globs" in rep:
-        wit = " [globs=%r%s]" % (rep["globs"], (" path=%r" % rep["path"]) if "path" in rep else "")
+        wit = " [globs=%r%s]" % (u8(rep["globs"]), (" path=%r" % u8(rep["path"])) if "path" in rep else "")
     if nfi:
         _pending.append((what + wit, rep))
     else:
@@ -466,6 +518,17 @@ def run(ctx):
     ctx.cov["multi_literal_sets"] = len(msets)
     ctx.cov["multi_literal_paths"] = len(mpaths)
     check_set(ctx, MULTI_CORPUS + msets, 3, DEEP_PATHS + mpaths)
+    # --- non-ASCII stream: multi-byte UTF-8 literals (set = members on the code; model byte-wise)
+    nsets, npaths = [], []
+    for _ in range(ctx.count(60)):
+        gs, ps = gen_nonascii_set(rng)
+        nsets.append(gs)
+        npaths += ps
+    npaths = sorted(set(npaths))
+    ctx.cov["nonascii_sets"] = len(nsets)
+    ctx.cov["nonascii_paths"] = len(npaths)
+    check_set(ctx, NA_CORPUS + nsets, 2, npaths + [b"dir/caf\xc3\xa9.txt", b"x/dir/caf\xc3\xa9.txt", b"\xc3\xbcber/a/b"])
+    check_glob(ctx, [g for gs in NA_CORPUS + nsets[:ctx.count(20)] for g in gs], 2, npaths)
     flush_pending(ctx)
     ctx.assumptions += [
         "regex-automata implements the meaning tmatch gives to the regex text globset emits (compared on every "
